@@ -14,7 +14,7 @@ import (
 )
 
 func init() {
-	register(&Rule{ID: "R18", Title: "sender-covers-sends: a goroutine that sends traces holds a sender handle of the tracer it sends on", Min: 20, Run: ruleR18})
+	register(&Rule{ID: "R18", Title: "sender-covers-sends: a goroutine that sends traces holds a sender handle of the tracer it sends on", Min: 14, Run: ruleR18})
 	register(&Rule{ID: "R35", Title: "trace-route: a trace a goroutine waits for is sent on (or relayed into) the tracer it subscribed to", Min: 2, Run: ruleR35})
 	register(&Rule{ID: "Rerr", Title: "dropped-constructor-error: the error of NewEventDefinitionInstance is not discarded where the instance is kept", Min: 2, Run: ruleRerr})
 }
